@@ -1,4 +1,5 @@
 import CorsVerif.Proofs.Serve
+import CorsVerif.Proofs.Translated
 import CorsVerif.Proofs.Accepted
 /-
   C10 — Vary is sufficient: cache-equivalent requests get identical CORS treatment (2-safety).
@@ -316,5 +317,19 @@ example : agree [Facts.headers_Origin] { method := [71, 69, 84], hdrs := fun k =
   intro n hn; simp at hn; subst hn; decide
 
 #print axioms C10_accepted
+
+
+/-- **C10 (translated handlers).** `handleNonCORS` and `handleCORSActual` — everything the middleware does to a request
+that is not a preflight — are translated from /repo's middleware.go into Lean on every run (Gen/Pipeline.lean); for every
+internal configuration, response headers already present, Origin value and method kind each translated function equals
+the hand-written model's.  An edit of one of these Go functions that changes its meaning, or leaves the translated
+subset of Go, breaks this obligation. -/
+theorem C10_handlers_translated (icfg : ICfg) (h : HdrMap) (origin : Bytes) (isOPTIONS : Bool) :
+    Gen.Pipeline.handleNonCORS icfg h isOPTIONS = Serve.handleNonCORS icfg h isOPTIONS ∧
+    Gen.Pipeline.handleCORSActual icfg h origin [origin] isOPTIONS =
+      Serve.handleCORSActual (Serve.modelDec icfg) icfg h origin isOPTIONS :=
+  Translated.handlers_eq icfg h origin isOPTIONS
+
+#print axioms C10_handlers_translated
 
 end Cors
